@@ -117,7 +117,8 @@ func (r *coordRPC) ClearPooledConnections(model.Server) {}
 // statusRes: resources.StatusResource that keeps the "durable" shard metadata of the coordinator and records
 // every store as an event.
 type statusRes struct {
-	c  *cluster
+	c   *cluster
+	inc int
 	mu sync.Mutex
 }
 
@@ -132,7 +133,21 @@ func (s *statusRes) DeleteShardMetadata(string, int64)                {}
 func (s *statusRes) UpdateShardMetadata(_ string, _ int64, md model.ShardMetadata) {
 	c := s.c
 	c.mu.Lock()
-	c.stores = append(c.stores, md.Clone())
+	park := c.parkSteadyStore && md.Status == model.ShardStatusSteadyState && s.inc == c.coordInc
+	if park {
+		// the coordinator process dies inside this Store call: nothing is stored, the call never returns
+		c.parkSteadyStore = false
+		c.storeParked = true
+	}
+	c.mu.Unlock()
+	if park {
+		<-c.dead
+		return
+	}
+	c.mu.Lock()
+	if s.inc == c.coordInc {
+		c.stores = append(c.stores, md.Clone())
+	}
 	c.mu.Unlock()
 }
 
